@@ -84,6 +84,7 @@ A_RegIssue    == \E c \in Client : CanOp(c) /\ \E o \in OpsFor(c) : RegIssue(c, 
 A_TryFromRegistry == \E c \in Client : CanOp(c) /\ \E o \in OpsFor(c) : TryFromRegistry(c, o) /\ Sch
 A_RegBody     == \E c \in Client : RegBody(c) /\ Sch
 A_RegPingReturn == \E c \in Client : RegPingReturn(c) /\ Sch
+A_Abandon     == "abandon" \in OpSet /\ \E c \in Client : Abandon(c) /\ Sch
 A_Flushed     == \E c \in Client : Flushed(c) /\ Sch
 A_RespReturn  == \E c \in Client : RespReturn(c) /\ Sch
 A_AwaitReturn == \E c \in Client : AwaitReturn(c) /\ Sch
@@ -126,7 +127,7 @@ A_Cancel      == /\ "cancel" \in Faults /\ nf < MaxFaults
 MCNext ==
   \/ A_SubmitForce \/ A_SubmitWait \/ A_AwaitBegin \/ A_Query \/ A_Convert \/ A_Upgrade \/ A_DropH \/ A_Detach
   \/ A_RegIssue \/ A_TryFromRegistry \/ A_RegBody \/ A_RegPingReturn
-  \/ A_JoinBegin \/ A_Flushed \/ A_RespReturn \/ A_AwaitReturn \/ A_JoinReturn
+  \/ A_JoinBegin \/ A_Abandon \/ A_Flushed \/ A_RespReturn \/ A_AwaitReturn \/ A_JoinReturn
   \/ A_StartedBegin \/ A_ScriptStep \/ A_StartedEnd \/ A_Dequeue \/ A_MailboxClosed \/ A_StopTaken
   \/ A_PingHandled \/ A_HandleBegin \/ A_HandleEnd \/ A_TimeoutFire \/ A_TimeoutBeforeStart \/ A_RestartTaken \/ A_RestartStopped
   \/ A_RestartRefresh \/ A_RestartStarted \/ A_StoppedEnd \/ A_Notify \/ A_Exit \/ A_Advance \/ A_Cancel
